@@ -90,6 +90,9 @@ type ctx struct {
 	seq     int
 	errSeen map[string]int
 	poison  bool
+	dblLog  string // file the hook appends double releases to (VERIF_DOUBLE_DISCARD_LOG), "" = not used
+	dblSeen int64
+	nDouble int
 	lastErr string
 	nPoison int
 	sigList []string
@@ -398,6 +401,41 @@ func (c *ctx) cteTwice(form int) {
 	}
 }
 
+// doubleReleaseCheck: (poisoning on) the hook logs a Discard of an object that already holds the poison — read what
+// it appended since the last statement; (poisoning off) an object released twice sits in the pool twice: allocate
+// from every pool and look for the same object handed out twice.
+func (c *ctx) doubleReleaseCheck(sql string) {
+	if c.nDouble >= 10 {
+		return
+	}
+	if c.poison {
+		if c.dblLog == "" {
+			return
+		}
+		fi, err := os.Stat(c.dblLog)
+		if err != nil || fi.Size() <= c.dblSeen {
+			return
+		}
+		b, err := os.ReadFile(c.dblLog)
+		if err != nil {
+			return
+		}
+		fresh := strings.TrimSpace(string(b[c.dblSeen:]))
+		c.dblSeen = int64(len(b))
+		lines := strings.Split(fresh, "\n")
+		if len(lines) > 3 {
+			lines = lines[:3]
+		}
+		c.nDouble++
+		c.o.Law("double_discard", map[string]string{"sql": sql, "how": "the Discard hook saw an object that was already discarded", "where": strings.Join(lines, " || ")})
+		return
+	}
+	if problem := valuePoolProbe(24); problem != "" {
+		c.nDouble++
+		c.o.Law("double_discard", map[string]string{"sql": sql, "how": "after this statement the value pool hands one object to two allocations", "where": problem})
+	}
+}
+
 func (c *ctx) nt(sg string) {
 	if c.sigSeen == nil {
 		c.sigSeen = map[string]bool{}
@@ -530,6 +568,7 @@ func (c *ctx) execChecked(sql string, kind string) (string, error) {
 			}
 		}
 	}
+	c.doubleReleaseCheck(sql)
 	c.scanText(out, whereOf(kind), sql)
 	if err != nil {
 		c.scanText(err.Error(), whereOf(kind)+" (error message)", sql)
@@ -636,7 +675,7 @@ func runC14(seed int64, n int, dir string, args []string) {
 			cmd.Env = append(cmd.Env, "C14_CORPUS=1")
 		}
 		if jb.poison {
-			cmd.Env = append(cmd.Env, "VERIF_POISON_DISCARD=1")
+			cmd.Env = append(cmd.Env, "VERIF_POISON_DISCARD=1", "VERIF_DOUBLE_DISCARD_LOG="+filepath.Join(cdir, "double.log"))
 		}
 		var stderr strings.Builder
 		cmd.Stderr = &stderr
@@ -762,6 +801,7 @@ func runChild(seed int64, n int, dir string, withCorpus bool) {
 	}
 	defer os.RemoveAll(repo)
 	c := &ctx{g: g, o: o, poison: poisonAvailable && os.Getenv("VERIF_POISON_DISCARD") != ""}
+	c.dblLog = os.Getenv("VERIF_DOUBLE_DISCARD_LOG")
 	if c.poison {
 		o.Count("mode:poison_on")
 	} else {
@@ -940,10 +980,33 @@ func runChild(seed int64, n int, dir string, withCorpus bool) {
 		for f := 0; f < 9; f++ {
 			c.cteTwice(f)
 		}
+		// early-return paths: every built-in with NULL in each argument position, on one row, on the main goroutine
+		// (@@CPU 1) — the paths on which a temporary is released "again" (explicitly and by a defer, or twice)
+		_, _ = pr.Exec("SET @@CPU TO 1;")
+		c.doubleReleaseCheck("(before the NULL-argument phase)")
+		probeArg := map[byte]string{'N': "3", 'F': "1.5", 'S': "'abc'", 'D': "'2012-02-03 09:18:15'"}
+		for _, sg := range c.sigs {
+			for pos := 0; pos <= len(sg.args); pos++ {
+				args := make([]string, len(sg.args))
+				for i := range sg.args {
+					args[i] = probeArg[sg.args[i]]
+					if i == pos {
+						args[i] = "NULL"
+					}
+				}
+				q := "SELECT " + sg.fn + "(" + strings.Join(args, ", ") + ") FROM one"
+				_, _ = c.pr.Query(q)
+				_, _ = c.pr.Query(q)
+				c.evals += 2
+				c.doubleReleaseCheck(q)
+			}
+		}
+		o.Count("nullarg_phase")
+		_, _ = pr.Exec("SET @@CPU TO 4;")
 	}
 	for it := 0; it < n; it++ {
 		c.seq++
-		kind := []string{"plain", "plain", "while", "udf", "prepared", "reread_table", "reread_cursor", "reread_variable", "dtcell", "fromlist", "dml_alias", "uda_pool", "extra_column", "cte_twice"}[it%14]
+		kind := []string{"plain", "plain", "while", "udf", "prepared", "reread_table", "reread_cursor", "reread_variable", "dtcell", "fromlist", "dml_alias", "uda_pool", "extra_column", "cte_twice", "dispose_shared"}[it%15]
 		o.Count("kind:" + kind)
 		switch kind {
 		case "plain":
@@ -1103,6 +1166,46 @@ func runChild(seed int64, n int, dir string, withCorpus bool) {
 		case "cte_twice":
 			c.cteTwice(c.seq / 14)
 			c.nt(fmt.Sprintf("cte_twice/%d", (c.seq/14)%3))
+		case "dispose_shared":
+			// DISPOSE of a variable whose value object is shared with a table cell, a cursor row, a literal of the
+			// syntax tree or another variable; then allocations of the same type; then the other holders are read
+			sfx := fmt.Sprintf("%d", c.seq)
+			var prog string
+			switch c.g.Intn(5) {
+			case 0: // fetched from a cursor over the cached table
+				prog = fmt.Sprintf("DECLARE dsc%s CURSOR FOR SELECT s, n, f, s2 FROM t ORDER BY id; OPEN dsc%s; VAR @ds1%s, @ds2%s, @ds3%s, @ds4%s; FETCH ABSOLUTE %d dsc%s INTO @ds1%s, @ds2%s, @ds3%s, @ds4%s; DISPOSE @ds1%s; DISPOSE @ds2%s; DISPOSE @ds3%s; DISPOSE @ds4%s; CLOSE dsc%s; DISPOSE CURSOR dsc%s;",
+					sfx, sfx, sfx, sfx, sfx, sfx, c.g.Intn(240), sfx, sfx, sfx, sfx, sfx, sfx, sfx, sfx, sfx, sfx, sfx)
+			case 1: // fetched from the datetime-typed temporary view
+				prog = fmt.Sprintf("DECLARE dsc%s CURSOR FOR SELECT dv, dn FROM dtt ORDER BY id; OPEN dsc%s; VAR @ds1%s, @ds2%s; FETCH ABSOLUTE %d dsc%s INTO @ds1%s, @ds2%s; DISPOSE @ds1%s; DISPOSE @ds2%s; CLOSE dsc%s; DISPOSE CURSOR dsc%s;",
+					sfx, sfx, sfx, sfx, c.g.Intn(120), sfx, sfx, sfx, sfx, sfx, sfx, sfx)
+			case 2: // a literal of a loop body, declared and disposed in every iteration
+				prog = fmt.Sprintf("VAR @di%s := 0; WHILE @di%s < 3 DO VAR @dl%s := 'shared literal %s'; VAR @dm%s := 4242%s; PRINT @dl%s || '/' || @dm%s; DISPOSE @dl%s; DISPOSE @dm%s; @di%s := @di%s + 1; END WHILE;",
+					sfx, sfx, sfx, sfx, sfx, sfx, sfx, sfx, sfx, sfx, sfx, sfx)
+			case 3: // a literal of a function body
+				prog = fmt.Sprintf("DECLARE dsf%s FUNCTION (@a) AS BEGIN VAR @loc := 'fn literal %s'; VAR @res := @loc || @a; DISPOSE @loc; RETURN @res; END; SELECT id, dsf%s(s) FROM t WHERE id <= 30 ORDER BY id; SELECT id, dsf%s(n) FROM t WHERE id <= 30 ORDER BY id;",
+					sfx, sfx, sfx, sfx)
+			default: // two variables holding one object
+				prog = fmt.Sprintf("VAR @dx%s := (SELECT s2 FROM t WHERE id = %d); VAR @dy%s; @dy%s := @dx%s; VAR @dz%s := (SELECT dv FROM dtt WHERE id = %d); VAR @dw%s; @dw%s := @dz%s; DISPOSE @dx%s; DISPOSE @dz%s; PRINT @dy%s; PRINT @dw%s;",
+					sfx, 1+c.g.Intn(240), sfx, sfx, sfx, sfx, 1+c.g.Intn(120), sfx, sfx, sfx, sfx, sfx, sfx, sfx)
+			}
+			r1, e1 := c.execChecked(prog, kind)
+			_, _ = c.execChecked(c.noise(), kind)
+			_, _ = c.execChecked("SELECT id, s || 'q', n + 1, f * 2, ADD_DAY(d, 1) FROM t WHERE id % 4 = 0; SELECT ADD_DAY(dv, 2), dn + 1 FROM dtt;", kind)
+			if strings.Contains(prog, "PRINT @dy") {
+				// the surviving variables of the last shape
+				again, e := c.execChecked(fmt.Sprintf("PRINT @dy%s; PRINT @dw%s;", sfx, sfx), "reread_variable")
+				tail := r1
+				if canon(again, e) != tail && e1 == nil {
+					o.Law("reread:variable", map[string]string{"program": prog, "first": tail, "second": canon(again, e)})
+				}
+			}
+			again, e := c.execChecked("SELECT * FROM t ORDER BY id; SELECT * FROM t2;", "reread_table")
+			if e != nil || again != baseline {
+				o.Law("reread:table", map[string]string{"second": canon(again, e), "after": prog})
+			}
+			c.scanView("SELECT * FROM t", "re-read table cell")
+			rereadDt("after " + prog)
+			c.nt(fmt.Sprintf("dispose_shared/%v/%d", e1 != nil, len(r1)%7))
 		case "dtcell":
 			// functions applied to datetime-typed cells and variables, twice; then the cells are read again
 			k := 1 + c.g.Intn(3)
